@@ -5,6 +5,7 @@ import SC.Lemmas.Seq
 import SC.Props.C04
 import SC.Lemmas.Merge
 import SC.Lemmas.Attach
+import SC.Lemmas.Refine
 namespace SC.Props
 open SC
 
@@ -85,6 +86,70 @@ theorem C02_load_keeps_handles (s : State) (oi : Nat) (o : Obj) (d : J) (p : Lis
   | some o' =>
     simp only [ho', Option.map_some, Option.some.injEq] at h
     exact ⟨herr2, o', c, c', rfl, h1, by rw [h]; exact h2, h3, h4⟩
+
+/-- C02, first sentence, at the level of a public read: whatever the backend currently holds under
+key `k` (written by anyone), `obj[k]` through ANY object bound to the resource — whatever that
+object had cached — returns exactly that value (same structure, identical scalars, same key sets),
+and `k in obj` is true; a key the backend does not have raises `KeyError`. -/
+theorem C02_getitem_returns_backend_value (s : State) (oi : Nat) (o : Obj) (i : Nat) (kvs0 : List (Key × T))
+    (dkvs : List (Key × J)) (k : Key)
+    (ho : s.objs[oi]? = some o) (hroot : o.root = .dict i kvs0) (hst : s.store o.res = some (.dict () dkvs))
+    (hv : Valid (s.fam o) (Tr.dict () dkvs : J)) (hwd : Tr.wfKV dkvs = true) (hwt : o.root.wf = true) :
+    (∀ v, Tr.lookup k dkvs = some v →
+      ∃ x : T, (call s (.root oi) (.dRead (.getitem k))).2 = .ok (.node x) ∧ Eqv x v) ∧
+    (Tr.lookup k dkvs = none → (call s (.root oi) (.dRead (.getitem k))).2 = .error .keyError) := by
+  have hk : sameKind o.root (Tr.dict () dkvs : J) = true := by rw [hroot]; rfl
+  have hwd' : (Tr.dict () dkvs : J).wf = true := by simpa [Tr.wf] using hwd
+  have h := call_root_refines s oi o (.dict () dkvs) (.dRead (.getitem k)) ho hst hv hwd' hwt hk rfl rfl rfl
+  obtain ⟨heqv, _, hres, _, _⟩ := h
+  cases ht : (updNode (s.fam o) o.root (Tr.dict () dkvs : J) s.next).val with
+  | leaf sc => rw [ht] at heqv; simp [Eqv] at heqv
+  | list j xs => rw [ht] at heqv; simp [Eqv] at heqv
+  | dict j tkvs =>
+    rw [ht] at heqv hres
+    simp only [Eqv] at heqv
+    simp only [runBody, dictRead] at hres
+    constructor
+    · intro v hv'
+      have hhas : Tr.hasKey k tkvs = true := heqv.2 k (by simp [Tr.hasKey, hv'])
+      obtain ⟨x, hx⟩ := (hasKey_iff_lookup k tkvs).mp hhas
+      simp only [hx] at hres
+      refine ⟨x, hres, ?_⟩
+      have hmem : (k, x) ∈ tkvs := by
+        clear heqv hres ht hhas
+        induction tkvs with
+        | nil => simp [Tr.lookup] at hx
+        | cons q qs ih =>
+          obtain ⟨k2, v2⟩ := q
+          simp only [Tr.lookup] at hx
+          by_cases hk2 : k2 = k
+          · simp only [hk2, if_true, Option.some.injEq] at hx; subst hx; subst hk2; exact List.mem_cons_self ..
+          · simp only [hk2, if_false] at hx; exact List.mem_cons_of_mem _ (ih hx)
+      obtain ⟨w, hw, hxw⟩ := (EqvKV_iff tkvs dkvs).mp heqv.1 (k, x) hmem
+      simp only at hw
+      rw [hv'] at hw
+      simp only [Option.some.injEq] at hw
+      subst hw
+      exact hxw
+    · intro hnone
+      cases hx : Tr.lookup k tkvs with
+      | none => simp only [hx] at hres; exact hres
+      | some x =>
+        exfalso
+        have hmem : (k, x) ∈ tkvs := by
+          clear heqv hres ht
+          induction tkvs with
+          | nil => simp [Tr.lookup] at hx
+          | cons q qs ih =>
+            obtain ⟨k2, v2⟩ := q
+            simp only [Tr.lookup] at hx
+            by_cases hk2 : k2 = k
+            · simp only [hk2, if_true, Option.some.injEq] at hx; subst hx; subst hk2; exact List.mem_cons_self ..
+            · simp only [hk2, if_false] at hx; exact List.mem_cons_of_mem _ (ih hx)
+        obtain ⟨w, hw, _⟩ := (EqvKV_iff tkvs dkvs).mp heqv.1 (k, x) hmem
+        simp only at hw
+        rw [hnone] at hw
+        simp at hw
 
 /-- non-vacuity of attachment: a handle two levels down (dict inside a list inside the root dict)
 survives a reload that rewrites scalars around it, adds and removes keys -/
